@@ -88,9 +88,13 @@ func LogFatalln(v ...any) {
 	fmt.Fprint(Stderr, fmt.Sprintln(v...))
 	Exit(1)
 }
-func LogPanic(v ...any)                 { s := fmt.Sprint(v...); fmt.Fprint(Stderr, s+"\n"); panic(s) }
-func LogPanicf(format string, v ...any) { s := fmt.Sprintf(format, v...); fmt.Fprint(Stderr, s+"\n"); panic(s) }
-func LogPanicln(v ...any)               { s := fmt.Sprintln(v...); fmt.Fprint(Stderr, s); panic(s) }
+func LogPanic(v ...any) { s := fmt.Sprint(v...); fmt.Fprint(Stderr, s+"\n"); panic(s) }
+func LogPanicf(format string, v ...any) {
+	s := fmt.Sprintf(format, v...)
+	fmt.Fprint(Stderr, s+"\n")
+	panic(s)
+}
+func LogPanicln(v ...any) { s := fmt.Sprintln(v...); fmt.Fprint(Stderr, s); panic(s) }
 func LogPrint(v ...any) {
 	if mode.Load() != ModeSerial {
 		log.Print(v...)
